@@ -319,6 +319,83 @@ func rulesC05(p *Prog, r *Report) {
 		ruleIDsScannable(p, r, t, kw, "G7")
 	}
 	ruleP1(p, r, eng)
+	ruleG8(p, r)
+}
+
+// ruleG8: a license atom absorbs at most one '+'. Two layers can absorb a '+' that abuts an id: the
+// scanner's normalisation (an attempt of the extracted lookup plan that consumes it) and the parser's
+// optional '+' after a license token. For every listed id X the text "X++" is run through the extracted
+// plan; whatever is left is offered to the parser, which takes one '+' (G8p: exactly one call site of
+// parseOperator("+") in parseLicense, not in a loop). If nothing is left, "X++" is accepted although no
+// derivation of the grammar yields two '+' on one id.
+func ruleG8(p *Prog, r *Report) {
+	r.Rule("G8", "necessary", 500, "one '+' per license atom: for every listed id X, the scanner's lookup plan and the parser together do not absorb both '+' of \"X++\"")
+	r.Rule("G8p", "necessary", 1, "the parser absorbs at most one '+' operator after a license token (one call site, outside any loop)")
+	t, err := p.LoadTables()
+	if err != nil {
+		r.Unknown("G8", "tables", "-", err.Error())
+		return
+	}
+	plan, err := extractPlan(p)
+	if err != nil {
+		r.Unknown("G8", "plan", "-", "kind=undecided: "+err.Error())
+		return
+	}
+	pl := p.Func(p.ExpPkg, "(*tokenStream).parseLicense")
+	parseOp := p.Func(p.ExpPkg, "(*tokenStream).parseOperator")
+	if pl == nil || parseOp == nil {
+		r.Unknown("G8p", "anchor", "-", "unresolved anchor: (*tokenStream).parseLicense / parseOperator")
+		return
+	}
+	parserPlus := 0
+	inLoop := false
+	for _, f := range p.RList {
+		for _, b := range f.Blocks {
+			for _, in := range b.Instrs {
+				c, ok := in.(*ssa.Call)
+				if !ok || c.Call.StaticCallee() != parseOp || len(c.Call.Args) < 2 {
+					continue
+				}
+				if s, ok := constString(c.Call.Args[1]); ok && s == "+" {
+					parserPlus++
+					for _, h := range f.Blocks {
+						if isLoopHeader(h) && naturalLoop(h)[b] {
+							inLoop = true
+						}
+					}
+					if f != pl {
+						inLoop = true // a second place that takes '+'
+					}
+				}
+			}
+		}
+	}
+	if parserPlus == 1 && !inLoop {
+		r.OK("G8p", "parseLicense|'+'", p.pos(pl.Pos()), "one optional '+' per license token", "", true)
+	} else {
+		r.Bad("G8p", "parseLicense|'+'", p.pos(pl.Pos()), fmt.Sprintf("the parser can take more than one '+' after a license (%d call sites of parseOperator(\"+\"), in a loop or outside parseLicense: %v)", parserPlus, inLoop))
+	}
+	take := 0
+	if parserPlus > 0 {
+		take = 1
+	}
+	ids := append(append([]string{}, t.Active...), t.Deprecated...)
+	for _, id := range ids {
+		res := plan.eval(t, id, "++")
+		if !res.OK || res.Role != plan.LicenseRole {
+			r.OK("G8", id, "-", "not a license token with '++' behind it", "", false)
+			continue
+		}
+		left := res.Rest
+		for i := 0; i < take; i++ {
+			left = strings.TrimPrefix(left, "+")
+		}
+		if left == "" {
+			r.Bad("G8", id, p.pos(plan.Fn.Pos()), fmt.Sprintf("%q is accepted: the scanner absorbs the first '+' (%s, token %s) and the parser the second; the grammar allows one '+' per id (compare \"MIT++\", which is rejected)", id+"++", res.Via, res.License))
+		} else {
+			r.OK("G8", id, "-", "a '+' is left over and rejected by the parser", res.Via, false)
+		}
+	}
 }
 
 // tailOf returns the last operand of a string concatenation chain.
@@ -362,8 +439,8 @@ func checkBufferRewrite(p *Prog, r *Report, fb *fnBounds, st *ssa.Store, fa *ssa
 		return ok && fa2.X == fa.X && fieldOf(fa2).Field == c.G && fieldOf(fa2).Struct == c.T.String()
 	}
 	type edge struct {
-		val ssa.Value
-		at  ssa.Instruction // where facts are taken
+		val  ssa.Value
+		at   ssa.Instruction // where facts are taken
 		cond []constraint
 	}
 	var edges []edge
@@ -524,8 +601,8 @@ type g6Observer struct {
 	p     *Prog
 	funcs map[*ssa.Function]bool
 	// per return instruction: visits / bad
-	res map[*ssa.Return]*[2]int
-	wit map[*ssa.Return]string
+	res      map[*ssa.Return]*[2]int
+	wit      map[*ssa.Return]string
 	entryIdx map[string]AV
 }
 
